@@ -4,7 +4,7 @@
 # (the registered procedure - git -C /repo apply; ./check; git -C /repo checkout -- . - gives the same verdicts)
 set -u
 PATCH="$1"; shift
-WT=/tmp/mutwt; HM=/tmp/h-mut; TG=/tmp/h-mut-target; VR=/tmp/mut-root
+SFX="${TRY_SFX:-}"; WT=/tmp/mutwt$SFX; HM=/tmp/h-mut$SFX; TG=/tmp/h-mut-target$SFX; VR=/tmp/mut-root$SFX
 if [ ! -d $WT ]; then git -C /repo worktree add -f $WT HEAD >/dev/null 2>&1; fi
 git -C $WT checkout -q --detach $(git -C /repo rev-parse HEAD) 2>/dev/null
 git -C $WT checkout -- . ; git -C $WT clean -fdq -e target
@@ -17,6 +17,9 @@ rm -rf $VR; mkdir -p $VR/evidence; cp /verif/known_findings.json $VR/; mkdir -p 
 for d in /verif/replays/*; do id=$(basename $d); mkdir -p $VR/replays/$id; for s in regress known; do [ -d $d/$s ] && cp -r $d/$s $VR/replays/$id/; done; done
 ( cd $HM && CARGO_TARGET_DIR=$TG cargo build --release --offline -p checks --bin svcheck 2>&1 | grep -E "^error" -A8 | head -20 )
 if [ ! -x $TG/release/svcheck ]; then echo "BUILD FAILED"; exit 3; fi
+# C16 and C20 run the real driver binary: built from the changed worktree as well
+case " $* " in *" C16 "*|*" C20 "*) ( cd $WT && cargo build --release --offline -p sylt --bin sylt 2>&1 | grep -E "^error" -A8 | head -20 );; esac
+export SYLT_BIN=$WT/target/release/sylt SYLT_LUA_DIR=/verif/harness/target/release
 for id in "$@"; do
   out=$(VERIF_ROOT=$VR NO_COLOR=1 $TG/release/svcheck $id quick 2>&1); rc=$?
   echo "== $id rc=$rc $(echo "$out" | grep -c '^VIOLATION') violation line(s): $(echo "$out" | grep '^violation' | head -3 | tr '\n' ';' | cut -c1-300)"
